@@ -391,6 +391,80 @@ def run(ctx, col: Collector):
         # every name written by the helper is addressed through it (same qualified form for tables, references, groups)
     guarded(col, 'C02-compose', 'composition', compose)
 
+    # ---------------------------------------------------------------- C02-form
+    def forms():
+        """Each DBML renderer returns text of the form the reader's rule for that element accepts, and every optional part stands exactly under the
+        condition on the attribute it writes (abstract string evaluation of every path, see sa/strval.py and rules/forms.py)."""
+        from .forms import form_obligation
+        D = 'pydbml.renderer.dbml.default.'
+        keep = {'name_to_dbml', 'string_to_dbml', 'quote_string', 'note_option_to_dbml', 'comment_to_dbml', 'get_full_name_for_dbml', 'get_full_name_for_sql',
+                'default_to_str', 'prepare_text_for_dbml', 'render_col', 'validate_for_dbml'}
+
+        def has(attr):
+            def pred(lits):
+                for l in lits:
+                    if l[0] == 'truthy' and str(l[1]).endswith('.' + attr):
+                        return True
+                    if l[0] == 'not' and isinstance(l[1], tuple) and l[1][0] == 'truthy' and str(l[1][1]).endswith('.' + attr):
+                        return False
+                    if l[0] == 'not' and isinstance(l[1], tuple) and l[1][0] == 'none' and str(l[1][1]).endswith('.' + attr):
+                        return True
+                    if l[0] == 'none' and str(l[1]).endswith('.' + attr):
+                        return False
+                return None
+            return pred
+
+        def flag(name, kw, attr, what):
+            return (name, kw, has(attr), True, f'`{what}` is written although {attr} is not set, or left out although it is set: the rendered document states a different {attr}')
+        W = r'(?<![a-z"◦])'
+        ITEMC = r'(◦\*?|pk|increment|unique|not null|default: ◦|◦: ◦)'
+        ITEMI = r'(name: ◦|pk|unique|type: ◦|◦)'
+        ITEMR = r'(update: ◦|delete: ◦)'
+        specs = [
+            (D + 'column', 'render_column', rf'(◦ ?)?"◦" ◦( ?\[({ITEMC}(, ?{ITEMC})*)?\])?', '"name" type [settings]', None,
+             [flag('pk', W + r'pk(?![a-z])', 'pk', 'pk'), flag('increment', W + 'increment', 'autoinc', 'increment'), flag('unique', W + 'unique', 'unique', 'unique'),
+              flag('not-null', W + 'not null', 'not_null', 'not null')]),
+            (D + 'enum', 'render_enum', r'(◦ ?)?Enum ◦ \{ ?(◦\*? ?)*\}', 'Enum name { items }', None, []),
+            (D + 'enum', 'render_enum_item', r'(◦ ?)?"◦"( \[◦\])?', '"item" [note]', None, [flag('note', r'\[◦\]', 'note', '[note: ...]')]),
+            (D + 'index', 'render_index', rf'(◦ ?)?(\(◦\*?\)|◦)( ?\[({ITEMI}(, ?{ITEMI})*)?\])?', '(subjects) [settings]', None,
+             [flag('pk', W + r'pk(?![a-z])', 'pk', 'pk'), flag('unique', W + 'unique', 'unique', 'unique'), flag('name', W + 'name: ◦', 'name', 'name:'),
+              flag('type', W + 'type: ◦', 'type', 'type:')]),
+            (D + 'reference', 'render_not_inline_reference', rf'(◦ ?)?Ref( ◦)? \{{ ?◦\.◦ ◦ ◦\.◦( ?\[({ITEMR}(, ?{ITEMR})*)?\])? ?\}}', 'Ref [name] {{ t.c op t.c [actions] }}', None,
+             [flag('update', 'update: ◦', 'on_update', 'update:'), flag('delete', 'delete: ◦', 'on_delete', 'delete:'), flag('name', r'Ref ◦ \{', 'name', 'the reference name')]),
+            (D + 'reference', 'render_inline_reference', r'ref: ◦ ◦\.(◦|"◦")', 'ref: op table."column"', None, []),
+            (D + 'table', 'render_table', r'(◦ ?)?Table ◦( as (◦|"◦"))?( \[headercolor: ◦\])? ?\{ ?(◦\*? ?)*(indexes \{ ?(◦\*? ?)*\} ?)?(◦\*? ?)*\}',
+             'Table name [as alias] [headercolor] { columns ... [indexes { }] }', None,
+             [flag('alias', r' as (◦|"◦")', 'alias', 'as alias'), flag('headercolor', 'headercolor: ◦', 'header_color', 'headercolor'), flag('indexes', r'indexes \{', 'indexes', 'indexes { }')]),
+            (D + 'project', 'render_project', r'(◦ ?)?Project (◦|"◦") \{ ?((◦: ◦ ?)|(◦\*? ?))*\}', 'Project name { items note }', None, []),
+            (D + 'table_group', 'render_table_group', r'(◦ ?)?TableGroup (◦|"◦")( \[color: ◦\])? \{ ?(◦\*? ?)*\}', 'TableGroup name [color] { tables note }', None,
+             [flag('color', 'color: ◦', 'color', 'color:')]),
+            (D + 'sticky_note', 'render_sticky_note', r'(◦ ?)?Note ◦ \{ ?◦ ?\}', 'Note name { text }', None, []),
+            (D + 'note', 'render_note', r'Note \{ ?◦ ?\}', 'Note { text }', None, []),
+            (D + 'expression', 'render_expression', r'`◦`', '`expression`', None, []),
+        ]
+        def data(name, rx, attr):
+            return (name, rx, has(attr), True, f'the {name} is written although {attr} is not set, or left out although it is set')
+        extra = {
+            'render_column': dict(labels=[data('note', r'\.note\b', 'note')], always=[('the column name', r'\.name\b'), ('the column type', r'\.type\b')],
+                                  order=[('name, type', [r'model\.name\b|\w+\.name\b', r'\.type\b'])]),
+            'render_enum': dict(some=[('the enum items', r'\.items\b')]),
+            'render_enum_item': dict(always=[('the item name', r'\.name\b')], labels=[data('note', r'\.note\b', 'note')]),
+            'render_index': dict(labels=[data('note', r'\.note\b', 'note')], always=[('the index subjects', r'subject')]),
+            'render_not_inline_reference': dict(order=[('table1.col1 <kind> table2.col2', [r'\.table1\b', r'\.col1\b', r'\.type\b', r'\.table2\b', r'\.col2\b'])],
+                                                always=[('the relation kind', r'\.type\b')]),
+            'render_inline_reference': dict(order=[('<kind> table.column of side 2', [r'\.type\b', r'\.col2\[0\]\.table\b', r'\.col2\[0\]\.name\b'])]),
+            'render_table': dict(some=[('the columns', r'\.columns\b')], labels=[data('note', r'\.note\b', 'note'), data('indexes', r'\.indexes\b', 'indexes')]),
+            'render_project': dict(always=[('the project name', r'\.name\b')], labels=[data('note', r'\.note\b', 'note')]),
+            'render_table_group': dict(some=[('the member tables', r'\.items\b')], labels=[data('note', r'\.note\b', 'note')]),
+            'render_sticky_note': dict(always=[('the note name', r'\.name\b'), ('the note text', r'\.text\b')]),
+            'render_note': dict(always=[('the note text', r'\.text\b')]),
+            'render_expression': dict(always=[('the expression text', r'\.text\b')]),
+        }
+        for mod_, fn_, pat, what, req, pairs in specs:
+            guarded(col, 'C02-form', fn_, lambda mod_=mod_, fn_=fn_, pat=pat, what=what, req=req, pairs=pairs: form_obligation(
+                ctx, col, 'C02-form', mod_, fn_, pat, what, keep=keep, require_some=req, pairs=pairs, **extra.get(fn_, {})))
+    forms()
+
     # ---------------------------------------------------------------- shared obligations
     def shared():
         n = 0
